@@ -75,9 +75,15 @@ def gen_schema_op(rng, cfg):
     # a file the parser cannot read: the reload must fail without touching the schemas
     # in force, and a later repaired file must be picked up
     return ['schema', rng.choice(['storage-schemas.conf', 'storage-aggregation.conf']), rng.choice(BROKEN)]
+  if r < 0.25:
+    # the file is gone for a while (a non-atomic replacement, a botched deployment)
+    return ['schema', rng.choice(['storage-schemas.conf', 'storage-aggregation.conf']), None]
+  # how the new content comes to carry its modification time: written now; written within
+  # the same clock tick as the previous version; an older file moved into place
+  stamp = rng.choice(['now', 'now', 'now', 'same', 'old'])
   if rng.random() < 0.6:
-    return ['schema', 'storage-schemas.conf', gen_schemas(rng)]
-  return ['schema', 'storage-aggregation.conf', gen_aggregation(rng)]
+    return ['schema', 'storage-schemas.conf', gen_schemas(rng), stamp]
+  return ['schema', 'storage-aggregation.conf', gen_aggregation(rng), stamp]
 
 
 def gen_config(rng, tier):
